@@ -25,6 +25,7 @@ type assumption struct {
 	body  ast.Node
 	lenOf func(e ast.Expr) (int64, bool) // assumed length of the slice e denotes
 	bools map[types.Object]bool
+	field func(sel *ast.SelectorExpr) (int64, bool) // assumed value of an integer field (the looked-up table row), may be nil
 }
 
 type argEnv map[types.Object]ast.Expr // parameters of an inlined helper -> arguments
@@ -96,6 +97,12 @@ func (a *assumption) intOf(e ast.Expr, env argEnv, depth int) (int64, bool) {
 		r := a.resolve(x, env, depth)
 		if r != ast.Expr(x) {
 			return a.intOf(r, nil, depth+1)
+		}
+	case *ast.SelectorExpr:
+		if a.field != nil {
+			if v, ok := a.field(x); ok {
+				return v, true
+			}
 		}
 	case *ast.BinaryExpr:
 		l, ok1 := a.intOf(x.X, env, depth+1)
@@ -269,6 +276,14 @@ func builtFrom(c *core.Ctx, info *types.Info, body ast.Node, e ast.Expr, depth i
 				bd := pat.Binds{"_i": r.Key, "_r": r.X}
 				if a, b := pat.Stmt("_x[_i] = _r[_i]").Find(info, r.Body, bd); a != nil && objOf(info, b["_x"].(ast.Expr)) == o {
 					src = objOf(info, r.X)
+				}
+				// for i := range X { X[i] = S[i] } with X := make(T, len(S)): every element of S, in order
+				if objOf(info, r.X) == o {
+					if a, b := pat.Stmt("_x[_i] = _s[_i]").Find(info, r.Body, pat.Binds{"_i": r.Key, "_x": r.X}); a != nil {
+						if mk := singleDef(info, body, o); mk != nil && pat.Expr("make(_t, len(_s))").Match(info, mk, pat.Binds{"_s": b["_s"]}) != nil {
+							src = objOf(info, b["_s"].(ast.Expr))
+						}
+					}
 				}
 				if r.Value != nil {
 					bd["_v"] = r.Value
